@@ -142,3 +142,8 @@ pub mod polynomial {
         crate::polynomial::poly_interpret_eval(points, eval_at, tmp_coeffs)
     }
 }
+
+/// Interceptor and direct entry points for the private DP sampler layers.
+pub mod dp {
+    pub use crate::dp::distributions::verif_hooks::*;
+}
